@@ -147,10 +147,12 @@ def model_block(b, templates):
     o = b["op"]
     if o == "def":
         eq = "-" if b.get("eq") is None else str(b["eq"])
-        return f"def {b['kind']} {b['n']} {b['n'] if b['m'] is None else b['m']} {b['id']} {eq}"
+        refs = "".join(f" {c}" for c, _ in (b.get("comps") or []))
+        return f"def {b['kind']} {b['n']} {b['n'] if b['m'] is None else b['m']} {b['id']} {eq}{refs}"
     if o == "raw":
-        nd = templates[b["kind"]][b["tpl"] % len(templates[b["kind"]])]["new_def"]
-        return f"raw {b['kind']} {b['n']} {b['n'] if b['m'] is None else b['m']} {b['id']} {1 if nd else 0}"
+        t = templates[b["kind"]][b["tpl"] % len(templates[b["kind"]])]
+        refs = "".join(f" {c}" for c in t.get("refs", []))
+        return f"raw {b['kind']} {b['n']} {b['n'] if b['m'] is None else b['m']} {b['id']} {1 if t['new_def'] else 0}{refs}"
     if o == "mod":
         return f"mod {b['kind']} {b['n']} {b['n'] if b['m'] is None else b['m']} {b['id']}"
     if o == "use":
